@@ -1270,7 +1270,7 @@ reply_parse(struct evdns_base *base, u8 *packet, int length)
 	u16 t_;	 /* used by the macros */
 	u32 t32_;  /* used by the macros */
 	char tmp_name[256], cmp_name[256]; /* used by the macros */
-	int name_matches = 0;
+	int name_matches = 0, has_error = 0;
 
 	u16 trans_id, questions, answers, authority, additional, datalength;
 	u16 flags = 0;
@@ -1298,10 +1298,10 @@ reply_parse(struct evdns_base *base, u8 *packet, int length)
 
 	/* If it's not an answer, it doesn't correspond to any request. */
 	if (!(flags & _QR_MASK)) return -1;  /* must be an answer */
-	if ((flags & (_RCODE_MASK|_TC_MASK)) && (flags & (_RCODE_MASK|_TC_MASK)) != DNS_ERR_NOTEXIST) {
-		/* there was an error and it's not NXDOMAIN */
-		goto err;
-	}
+	/* an error other than NXDOMAIN is acted on below, once we know that the
+	 * question (if the server echoed one) is ours */
+	has_error = (flags & (_RCODE_MASK|_TC_MASK)) &&
+	    (flags & (_RCODE_MASK|_TC_MASK)) != DNS_ERR_NOTEXIST;
 	/* if (!answers) return; */  /* must have an answer of some form */
 
 	/* This macro skips a name in the DNS reply. */
@@ -1348,8 +1348,10 @@ reply_parse(struct evdns_base *base, u8 *packet, int length)
 		j += 4;
 	}
 
-	if (!name_matches)
+	if (!name_matches && (questions || !has_error))
 		return -1; /* not an answer to our question: ignore it */
+	if (has_error)
+		goto err;
 
 	/* We can allocate less for the reply data, but to do it we'll have
 	 * to parse the response. To simplify things let's just allocate
